@@ -2,6 +2,7 @@ import PppModel.Lemmas.V2Blame
 import PppModel.Lemmas.V1Blame
 import PppModel.Lemmas.AutoDetect
 import PppModel.Props.C06
+import PppModel.Lemmas.Utf8Spec
 
 /-!
 # C12 — a single malformed element is rejected terminally and blamed on the right field
@@ -150,6 +151,22 @@ theorem v1_limit_and_utf8 (x : B) :
       parseBytes x = .error (.parse .headerTooLong)) ∧
     (∀ n, windowLength x = some n → Utf8.valid (x.take n) = false → parseBytes x = .error .invalidUtf8) :=
   ⟨G8_window_none, fun _ h hn hl hv => G8_parseBytes_too_long h hn hl hv, fun _ h hv => G9_invalid_utf8 h hv⟩
+
+/-- The model's `Utf8.valid` (a transcription of the byte-range table that `core::str::from_utf8`
+implements) is UTF-8 as RFC 3629 defines it: the concatenation of the shortest-form encodings of
+Unicode scalar values (`Spec/Utf8.lean`, pure arithmetic). -/
+theorem utf8_valid_iff_wellFormed (x : B) : Utf8.valid x = true ↔ Spec.Utf8.WellFormed x :=
+  Utf8.valid_iff_wellFormed x
+
+open V1 V1.Blame in
+/-- "Invalid UTF-8" stated against that definition: a line window that is not the encoding of
+any sequence of scalar values is rejected with `InvalidUtf8`. -/
+theorem v1_ill_formed_utf8 (x : B) (n : Nat) (hw : windowLength x = some n)
+    (hill : ¬ Spec.Utf8.WellFormed (x.take n)) : parseBytes x = .error .invalidUtf8 := by
+  apply G9_invalid_utf8 hw
+  cases hv : Utf8.valid (x.take n) with
+  | false => rfl
+  | true => exact absurd ((Utf8.valid_iff_wellFormed _).mp hv) hill
 
 /-! ### the same for TCP6 lines and for UNKNOWN lines -/
 
